@@ -1,6 +1,6 @@
 """C13 — stream tokens are bound to the method that minted them.
 
-A 17-method stream service (producer / exchange mixes; one state class shared by two
+An 18-method stream service (producer / exchange mixes; one state class shared by two
 methods; structurally identical but distinct classes; a field-superset class; union
 states in both orders; call states that are shared, same-named-but-distinct,
 structurally identical, or absent) is served by an in-process HTTP worker.  A stream
@@ -27,7 +27,7 @@ from lib.harness import Check, Outcome
 
 PROPERTY = "C13"
 RULE = (
-    "Exhaustive grid over ordered pairs (A,B) of the 17 zoo stream methods x state variant x cache capacity {0,8}: "
+    "Exhaustive grid over ordered pairs (A,B) of the 18 zoo stream methods x state variant x cache capacity {0,8}: "
     "stream A is advanced 2 turns, and each of its cursors (with its call token) is sent to B's /exchange as next and as "
     "cancel in each request shape {tick, v-row, w-row}; plus Hypothesis histories (1-3 streams on different methods, "
     "interleaved legit turns, clock advances below the TTL, token pairs mixed across streams of different methods, "
@@ -35,7 +35,7 @@ RULE = (
     "field-superset / union-related (deserialization alone cannot reject); distinct by SHA-1 of the canonical case."
 )
 ASSUMPTIONS = [
-    "the zoo service stands in for 'all services': 17 stream methods covering every state-class / call-state relation named in the property",
+    "the zoo service stands in for 'all services': 18 stream methods covering every state-class / call-state relation named in the property",
     "a foreign presentation that is refused only because deserialization of the foreign state failed counts as rejected",
     "time / os.urandom / uuid.uuid4 read by the token modules are replaced by a logical clock and a SHA-256 counter stream",
 ]
@@ -156,7 +156,7 @@ def run_grid(case: dict[str, Any]) -> Outcome:
             env.clock.now += 1
             tk.legit_continue(w, env, rec, v=2 + s)
         if len(rec.cursors) != 3:
-            raise tk.HarnessFault(f"legit turns of {a} failed")
+            out.fail(f"own_endpoint_refused/{M[a]['kind']}/next", f"a legitimate turn of {a} at its own endpoint was refused ({len(rec.cursors) - 1} of 2 turns served)")
         for j in range(len(rec.cursors)):
             for req in ("next", "cancel"):
                 for shape in ("tick", "v", "w"):
